@@ -268,7 +268,7 @@ def ensure_generic_mapping(
 
 
 def expr_or_maybe_none(spec: ValueSpec, new_expr: Expression) -> Expression:
-    if spec.could_be_none:
+    if spec.could_be_none and new_expr != spec.expression:
         return f"{new_expr} if {spec.expression} is not None else None"
     else:
         return new_expr
